@@ -164,12 +164,16 @@ def bary3 (x0 x1 x2 p : V3 α) : St × B3 α :=
   else
     (St.divZero, ⟨lit0, lit0, lit0⟩)
 
-/-- the shifted query point of `ref_node_bary3d`: `xyz - total_normal * ((xyz-xyz0)·total_normal)`
-    (the normal is **not** normalised in the C; see `bary3d_raw_shift` in Props/C15) -/
+/-- the shifted query point of `ref_node_bary3d`: `xyz - total_normal * ((xyz-xyz0)·total_normal) / (N·N)`: the
+    orthogonal projection onto the triangle plane (the division is the repair `fix: project onto the triangle plane
+    with the normalized normal in ref_node_bary3d`; without it the offset along the un-normalised normal is amplified by
+    |N|^2 and cancels catastrophically for triangles with edges >~ 50: weights wrong by O(1).  In exact arithmetic
+    the weights do not depend on the amount of the shift at all: `bary3dRaw_shift` in Props/C15) -/
 def bary3dPoint (x0 x1 x2 p : V3 α) : V3 α :=
   let tn := triNormal x0 x1 x2
   let q := V3.sub p x0
   let total := dot q tn
+  let total := if Scalar.divisible total (dot tn tn) then total /. dot tn tn else total
   (⟨(q.x -. tn.x *. total) +. x0.x, (q.y -. tn.y *. total) +. x0.y, (q.z -. tn.z *. total) +. x0.z⟩ : V3 α)
 
 /-- un-normalised `ref_node_bary3d` weights for an already shifted point `pp` -/
